@@ -39,8 +39,10 @@ def analyse(cases, obs, bindir, tag, findings, broken, stats, combine=0):
     # layer-kind pattern cases (no operations): one combined evaluation each; a failure is split afterwards
     pats = [c for c in cases if oc.is_pattern(c)]
     cases = [c for c in cases if not oc.is_pattern(c)]
-    if pats:
-        pf, pe = oc.eval_bools('c10_pat_' + tag, [oc.expr_pattern(c, obs[c['id']]) for c in pats])
+    pat_res = None
+    if pats and not combine:
+        pat_res = oc.eval_bools('c10_pat_' + tag, [oc.expr_pattern(c, obs[c['id']]) for c in pats])
+    def after_patterns(pf, pe):
         if pe: broken.append({'kind': 'correspondence', 'name': 'Coq evaluation of the pattern cases failed', 'log': pe[0]['log']})
         stats['evals'] += len(pats); stats['tie_cases'] += len(pats); stats['patterns'] = stats.get('patterns', 0) + len(pats)
         bad = [pats[i] for i in sorted(pf)]
@@ -72,15 +74,19 @@ def analyse(cases, obs, bindir, tag, findings, broken, stats, combine=0):
              ('c10_ord_' + tag, [oc.expr_ordinary(cases[i], obs[cases[i]['id']]) for i in up]),
              ('c10_ro_' + tag, ro_exprs)]
     if combine:
-        # few long histories: all four evaluations of a case sit next to each other in one list, cut into at most `combine` coqc
-        # runs (the start-up of coqc - loading the model - costs more than evaluating a case)
-        flat = sorted(((si, li, e) for si, (_, ex) in enumerate(specs) for li, e in enumerate(ex)),
-                      key=lambda x: ((uni, up, noup)[x[0] - 1][x[1]] if x[0] else x[1], x[0]))
+        # all evaluations of a case (and the pattern cases, spread evenly) sit next to each other in one list, cut into at most
+        # `combine` coqc runs: the start-up of coqc - loading the model - costs more than evaluating a case
+        specs.append(('c10_pat_' + tag, [oc.expr_pattern(c, obs[c['id']]) for c in pats]))
+        scale = (len(cases) / len(pats)) if pats else 1
+        def pos(si, li): return li if si == 0 else (uni, up, noup)[si - 1][li] if si < 4 else li * scale
+        flat = sorted(((si, li, e) for si, (_, ex) in enumerate(specs) for li, e in enumerate(ex)), key=lambda x: (pos(x[0], x[1]), x[0]))
         f, e = oc.eval_bools('c10_all_' + tag, [x[2] for x in flat], shard=max(1, -(-len(flat) // combine)))
         res = [(set(), e) for _ in specs]
         for i in f: res[flat[i][0]][0].add(flat[i][1])
+        pat_res = res.pop()
     else:
         res = [oc.eval_bools(n, ex) for n, ex in specs]
+    if pats: after_patterns(*pat_res)
     (tie_fail, errs), (uni_fail, e2), (ord_fail, e3), (ro_fail, e4) = res
     if errs: broken.append({'kind': 'correspondence', 'name': 'Coq evaluation of the cases failed', 'log': errs[0]['log']})
     uni_fail = set(uni[i] for i in uni_fail)
@@ -211,7 +217,7 @@ def run_check(tier, seed):
         cases, obs, badh = oc.explore(PROP, seed, n, False, bindir, 'c10', patterns=('full' if tier == 'thorough' else True), open_flags_enum=('full' if tier == 'thorough' else True))
         if badh: broken.append({'kind': 'harness', 'name': 'harness output incomplete or layers not materialised as generated', 'cases': badh[:5]})
         lap('harness build + main run')
-        analyse(cases, obs, bindir, 'a', findings, broken, stats); lap('main cases evaluated')
+        analyse(cases, obs, bindir, 'a', findings, broken, stats, combine=(NPROC if tier == 'quick' else 0)); lap('main cases evaluated')
         audit_blocks(tier, bindir, findings, broken, stats); lap('audit blocks')
         if broken and not [f for f in findings if not finding_known(f, known_findings(PROP))]:
             # a proof or tie broke: search harder for a concrete failing input
